@@ -259,7 +259,7 @@ func (c *codecCtx) propagate(body *ast.BlockStmt, src func(ast.Expr) (string, bo
 			}
 			// json.Unmarshal(X, &y) on the rhs: y <- X
 			for _, r := range s.Rhs {
-				if c.unmarshalFlow(r, env, src) {
+				if c.unmarshalFlow(r, env, src, ctl) {
 					changed = true
 				}
 			}
@@ -276,7 +276,7 @@ func (c *codecCtx) propagate(body *ast.BlockStmt, src func(ast.Expr) (string, bo
 				}
 			}
 		case *ast.ExprStmt:
-			if c.unmarshalFlow(s.X, env, src) {
+			if c.unmarshalFlow(s.X, env, src, ctl) {
 				changed = true
 			}
 			// copy(dst, src) builtin
@@ -378,7 +378,7 @@ func (c *codecCtx) propagate(body *ast.BlockStmt, src func(ast.Expr) (string, bo
 }
 
 // unmarshalFlow handles json.Unmarshal(X, &y): labels of X flow into y.
-func (c *codecCtx) unmarshalFlow(e ast.Expr, env taintEnv, src func(ast.Expr) (string, bool)) bool {
+func (c *codecCtx) unmarshalFlow(e ast.Expr, env taintEnv, src func(ast.Expr) (string, bool), ctl map[string]bool) bool {
 	changed := false
 	ast.Inspect(e, func(n ast.Node) bool {
 		call, ok := n.(*ast.CallExpr)
@@ -390,6 +390,9 @@ func (c *codecCtx) unmarshalFlow(e ast.Expr, env taintEnv, src func(ast.Expr) (s
 			return true
 		}
 		lab := c.exprLabels(call.Args[0], env, src)
+		for k := range ctl {
+			lab[k] = true // a decode that only happens under a condition depends on that condition
+		}
 		if u, ok := ast.Unparen(call.Args[1]).(*ast.UnaryExpr); ok && u.Op == token.AND {
 			if o := lhsObj(c.info, u.X); o != nil {
 				if env.addAll(o, lab) {
